@@ -53,6 +53,8 @@ def cases(tier, seed):
         layouts = ["flat"] if n == 1 else (["tree", "flat"] if not quick else ["tree"])
         for layout in layouts:
             for cplx in (False, True):
+                if quick and n == 5 and cplx:
+                    continue
                 for x0 in (False, True):
                     for has_abs in (False, True):
                         for has_res in (False, True):
@@ -169,7 +171,9 @@ def run_hpd(c):
     wrap, flat = _layout(layout, n)
     fn = _static_fn(n, layout, cplx, c["absdelta"], c["resnorm"], c["miniter"] == "none", c["maxmode"] == "none", c["x0"], True)
     fallback = not c["absdelta"] and not c["resnorm"]
-    tolsets = [(None, None), (1e-2, 0.), (1e-5, 1e-3)] if fallback else [(None, None), (0.5, 0.5)]
+    tolsets = [(None, None), (1e-2, 0.), (0.5, 0.), (1e-5, 1e-3)] if fallback else [(None, None), (0.5, 0.5)]
+    # tight thresholds (met near the round-off floor) and loose ones (met while the iterates still move)
+    critvals = [(None, None)] if fallback else [(ABSDELTA, RESNORM), (1e-2, 1e-1)]
     minivals = [None] if c["miniter"] == "none" else [0, 3]
     rhss = ["e0", "ones", "eig"] + (["eig2", "gen"] if n > 1 else [])
     if cplx and n > 1:
@@ -205,9 +209,9 @@ def run_hpd(c):
                     r = _eager(mat, flat, jv, x0e, dict(resnorm=0., miniter=k + 1), k)
                     traj[k] = None if "raised" in r or r["nit"] != k else r["x"]
                 return traj[k]
-            for mini in minivals:
+            for mini, (absv, resv) in [(m, cv) for cv in critvals for m in minivals]:
                 for tol, atol in tolsets:
-                    cfg = dict(absdelta=ABSDELTA if c["absdelta"] else None, resnorm=RESNORM if c["resnorm"] else None,
+                    cfg = dict(absdelta=absv if c["absdelta"] else None, resnorm=resv if c["resnorm"] else None,
                                tol=tol, atol=atol, miniter=mini)
                     tag = "%s,%s,rhs=%s" % (spec, "complex" if cplx else "real", rhs)
                     maxiter = None
@@ -240,7 +244,7 @@ def run_hpd(c):
                             continue
                         rn = np.linalg.norm(A @ x - j)
                         E = S.energy(A, j, x)
-                        r["rn"], r["E"] = rn, E
+                        r["rn"], r["E"], r["amb"], r["crit"], r["valid_success"] = rn, E, False, False, False
                         if r["success"] != (r["info"] == 0):
                             V("hpd|%s|success-flag-differs-from-info" % solver, "%s info=%d success=%s" % (where, r["info"], r["success"]))
                         if r["info"] < 0:
@@ -279,6 +283,18 @@ def run_hpd(c):
                                 V("hpd|%s|success-without-criterion" % solver,
                                   "%s reports info=0 at nit=%d but |Ax-j|=%.3e (resnorm %s), last energy decrease %s (absdelta %s)"
                                   % (where, r["nit"], rn, resn, dE, cfg["absdelta"]))
+                        if r["info"] == 0 and r["nit"] - 1 >= max(mi, 1):
+                            # the rule is "stop at the first iteration >= miniter at which a criterion holds"
+                            xp = prev_iterate(r["nit"] - 1)
+                            xpp = prev_iterate(r["nit"] - 2)
+                            if xp is not None and xpp is not None:
+                                rnp = np.linalg.norm(A @ xp - j)
+                                dEp = S.energy(A, j, xpp) - S.energy(A, j, xp)
+                                if ((resn is not None and rnp < resn * (1 - 1e-6) - sg) or
+                                        (cfg["absdelta"] is not None and dEp < cfg["absdelta"] * (1 - 1e-6) - 2 * sE)):
+                                    V("hpd|%s|continues-after-criterion-met" % solver,
+                                      "%s stops at nit=%d although at iteration %d >= miniter %d already |Ax-j|=%.3e (resnorm %s), "
+                                      "energy decrease %.3e (absdelta %s)" % (where, r["nit"], r["nit"] - 1, mi, rnp, resn, dEp, cfg["absdelta"]))
                         if r["info"] > 0 and r["nit"] != ma:
                             V("hpd|%s|failure-before-maxiter" % solver, "%s info=%d nit=%d maxiter=%d" % (where, r["info"], r["nit"], ma))
                         # exact CG iterate
@@ -287,7 +303,7 @@ def run_hpd(c):
                                 V("hpd|%s|iterate-not-krylov-optimal" % solver,
                                   "%s: E(x)=%.15g after %d iterations, Krylov optimum %.15g (E0-E*=%.2e)" % (where, E, r["nit"], Eref[r["nit"]], gap0))
                     e, s = res["eager"], res["static"]
-                    if "E" not in e or "E" not in s or maxiter == 0:
+                    if "E" not in e or "E" not in s or maxiter == 0 or e["info"] < 0 or s["info"] < 0:
                         continue
                     if e["info"] == 0:
                         if maxiter is not None and e["nit"] == maxiter and maxiter > 0:
